@@ -39,6 +39,8 @@ func init() {
 		"go.tc.time":       goTcTime,
 		"go.tc.total":      goTcTotal,
 		"go.tc.lockup":     goTcLockup,
+		"go.ed.smallorder": goEdSmallOrder,
+		"go.tc.smallkey":   goTcSmallKey,
 		"go.tc.genpayload": goTcGenPayload,
 	})})
 }
@@ -480,6 +482,15 @@ func goTcSubst(a []string) string {
 			return "ok"
 		}
 		o := mkWallet(w.ver, h.Hex(randBytes(r, 32)))
+		// first the attacker proves, legitimately and in THE SAME PROCESS, ownership of its OWN address with that state-init
+		// (anything the server or the package remembers from an accepted proof must not help with another address)
+		own, err := tonconnect.CreateSignedProof(payload, o.id, o.priv, o.si, tonconnect.ProofOptions{Timestamp: now, Domain: domain})
+		if err != nil {
+			return "FAIL create-own-proof"
+		}
+		if ok, _, err, pan := safeCheck(srv, own, srv.CheckPayload, cd); pan || !ok || err != nil {
+			return "FAIL own-proof-of-the-attacker-rejected"
+		}
 		p.Proof.StateInit = o.siB64
 		sig := ed25519.Sign(o.priv, refMessage(w.id.Workchain, w.id.Address[:], domain, now.Unix(), payload))
 		p.Proof.Signature = base64.StdEncoding.EncodeToString(sig)
@@ -665,6 +676,53 @@ func forgeZeroKey(msg []byte) []byte {
 		}
 	}
 	return nil
+}
+
+// smallOrderKey / smallOrderSig: the Ed25519 public key 01 00 … 00 encodes the identity point (order 1); with R = the
+// identity and S = 0 the verification equation S·B = R + h·A holds for EVERY message.
+func smallOrderKey() ed25519.PublicKey { k := make([]byte, 32); k[0] = 1; return k }
+func smallOrderSig() []byte            { s := make([]byte, 64); s[0] = 1; return s }
+
+// go.ed.smallorder <seed>: THE LIMIT of the idealisation (lean/TongoProofs/Lemmas/SigIdeal.lean), witnessed on the real
+// scheme: crypto/ed25519 accepts one fixed signature for every message under the small-order key 01 00 … 00, which is
+// not an honestly generated key. The negative theorems of C14 / C19 therefore assume honestly generated keys. "ok" =
+// the limit reproduces (all messages accepted); a future standard library rejecting such keys would show here.
+func goEdSmallOrder(a []string) string {
+	r := rand.New(rand.NewSource(atoi64(a[0])))
+	for i := 0; i < 16; i++ {
+		msg := randBytes(r, r.Intn(100))
+		if !ed25519.Verify(smallOrderKey(), msg, smallOrderSig()) {
+			return "FAIL limit-not-reproduced small-order-key-rejected-a-message"
+		}
+	}
+	// and an honestly generated key does reject that signature
+	pub, _, _ := ed25519.GenerateKey(r)
+	if ed25519.Verify(pub, []byte("m"), smallOrderSig()) {
+		return "FAIL honest-key-accepted-the-fixed-signature"
+	}
+	return "ok"
+}
+
+// go.tc.smallkey <seed>: why the SOURCE of CheckProof's key matters: if the account's get-method answers with the
+// small-order key, a proof forged without any private key is accepted — CheckProof proves control of "the key the
+// account reports", nothing more. "ok" = the limit reproduces.
+func goTcSmallKey(a []string) string {
+	r := rand.New(rand.NewSource(atoi64(a[0])))
+	var addr [32]byte
+	copy(addr[:], randBytes(r, 32))
+	id := ton.AccountID{Workchain: 0, Address: addr}
+	srv, _ := tonconnect.NewTonConnect(&stubExecutor{mode: getterFor("key", smallOrderKey())}, "secret")
+	payload, _ := srv.GeneratePayload()
+	p := &tonconnect.Proof{Address: id.String(), Proof: tonconnect.ProofData{Timestamp: time.Now().Unix(), Domain: "victim.org",
+		Signature: base64.StdEncoding.EncodeToString(smallOrderSig()), Payload: payload}}
+	ok, key, err, pan := safeCheck(srv, p, srv.CheckPayload, tonconnect.StaticDomain("victim.org"))
+	if pan {
+		return "FAIL panic"
+	}
+	if !ok || err != nil || string(key) != string(smallOrderKey()) {
+		return "FAIL limit-not-reproduced forged-proof-under-small-order-key-rejected"
+	}
+	return "ok"
 }
 
 // go.tc.lockup <seed>: a state-init carrying the lockup wallet code (a known code hash without a data layout) must
@@ -1108,6 +1166,11 @@ func genC19(g *h.G) {
 			g.Emit("go.tc.total", v, fmt.Sprint(g.Rng.Intn(1<<30)))
 		}
 		g.Emit("go.tc.lockup", fmt.Sprint(g.Rng.Intn(1<<30)))
+		if i < 3 {
+			g.Count("limit_small_order_key")
+			g.Emit("go.ed.smallorder", fmt.Sprint(g.Rng.Intn(1<<30)))
+			g.Emit("go.tc.smallkey", fmt.Sprint(g.Rng.Intn(1<<30)))
+		}
 		g.Emit("go.tc.genpayload", h.Hex(g.Bytes(g.Pick(0, 5, 64, 100))), fmt.Sprint(g.Pick(1, 300, 100000)))
 	}
 	// time boundaries with the real clock (few: each waits for mid-second)
